@@ -8,7 +8,8 @@ correspond  real find_compound_variants / IdentifierExtractor::find_all / is_bou
 oracle      by construction, independent of model and code: an identifier is assembled as
             lead + prefix-words + TERM + suffix-words (+ trailing / doubled separators, digits, plural) and the only
             acceptable outcomes are "untouched" or the same assembly with the replacement in the term's place
-            (byte for byte outside the term's span); near-miss identifiers must stay untouched.  Evaluated on
+            (byte for byte outside the term's span); near-miss identifiers must stay untouched.  The same for dotted paths of
+            2..4 segments whose segments start / end with '-' or '_' and mix separator kinds (Dot style not enabled).  Evaluated on
             find_compound_variants, on find_enhanced_matches and end-to-end (scan_repository + apply_plan on a one-file
             tree, and the CLI binary on a sample).  Every failure must be one of the finding classes still listed in
             KNOWN_FINDINGS.txt *and* equal that class's predicted output, otherwise it is a VIOLATION.  The three classes
@@ -98,7 +99,7 @@ def has_word_sequence(ident, term):
 
 class Case:
     __slots__ = ("st", "lead", "pre", "suf", "dbl", "trail", "term", "repl", "variant", "ident", "expected", "styles",
-                 "search", "replace", "near", "outer", "mid_words")
+                 "search", "replace", "near", "outer", "mid_words", "dot")
 
     def local(self, obs):
         """locality by construction: everything outside the term's span is byte-identical and the span now holds the
@@ -119,6 +120,7 @@ class Case:
     def __init__(self, st, lead, pre, suf, dbl, trail, term, repl, variant="plain", typed=("snake", "snake")):
         self.st, self.lead, self.pre, self.suf, self.dbl, self.trail = st, lead, list(pre), list(suf), dbl, trail
         self.term, self.repl, self.variant, self.near = list(term), list(repl), variant, False
+        self.dot = None
         pre, suf, t, r = list(pre), list(suf), list(term), list(repl)
         if variant == "digit_suffix_word":
             suf = ["2"] + suf
@@ -159,12 +161,23 @@ class Case:
                 "lead": self.lead, "prefix_words": self.pre, "suffix_words": self.suf, "doubled": self.dbl,
                 "trailing": self.trail, "variant": self.variant, "styles": self.styles, "near_miss": self.near,
                 "expected_if_touched": self.expected, "outside_the_term": list(self.outer),
-                "term_words": self.term, "replacement_words": self.repl}
+                "term_words": self.term, "replacement_words": self.repl, "dotted": list(self.dot) if self.dot else None}
 
     # ---- finding classes: decidable description on the input + the exact predicted output ---------------
     def classes(self):
         """{slug: predicted wrong output} for every listed class whose input description holds"""
         if self.variant in ("digit_glued", "plural") or self.near:
+            return {}
+        if self.variant == "dotted":
+            # a dot-split segment that starts with '-' and also contains '_' is taken for a name mixing '-' and '_' with '-'
+            # dominant: all its words are re-joined with '-', the leading '-' is dropped (find_all pushes the part as it is)
+            d0, d1, left, right = self.dot
+            if d0 == "-" and (SEP[self.st] == "_" or d1 == "_") and (self.pre or self.suf):
+                words = list(self.pre) + list(self.repl) + list(self.suf)
+                ps = [piece(self.st, w, i == 0) for i, w in enumerate(words)]
+                a, b = len(self.pre), len(self.pre) + len(self.repl)
+                mid = ("-" if self.st in ("snake", "kebab", "screaming_snake") else "").join(ps[a:b])   # Title-form words: ONE PascalCase token
+                return {"dot_segment_leading_hyphen_rejoined": left[:-1] + "-".join(ps[:a] + [mid] + ps[b:]) + right}
             return {}
         sep = SEP[self.st]
         pre, suf, r = list(self.pre), list(self.suf), list(self.repl)
@@ -314,6 +327,47 @@ def family(thorough):
                 out.append(Case(st, "___", PRE_WORDS[npre], SUF_WORDS[nsuf], "none", "", TERMS[nt], REPLS[2]))
             if sep:
                 out.append(Case(st, "", PRE_WORDS[npre], SUF_WORDS[nsuf], "none", sep * 2, TERMS[nt], REPLS[2]))
+    return out
+
+
+def wrap_dotted(c, d0, d1, left, right):
+    """put the by-construction identifier of `c` into a dotted path: `left` ends with the segment's leading decoration `d0`,
+    `right` starts with its trailing decoration `d1`"""
+    P, S = c.outer
+    c.ident, c.expected = left + c.ident + right, left + c.expected + right
+    c.outer = (left + P, S + right)
+    c.variant = "dotted"
+    c.dot = (d0, d1, left, right)
+    return c
+
+
+DOT_NEIGHBOURS = ["cfg", "a", "b-", "x", "search-form", "obj", "my_mod", "-w", "Baz", "_p", "w_"]
+
+
+def dotted_cases():
+    """dotted paths of 2..4 segments (Dot style not enabled, so the extractor splits on the dots): the term sits in one
+    segment, rendered in a separator or hump style inside 0..1 prefix / suffix words; that segment may start and / or end
+    with '-' or '_'; the other segments use other separator kinds and may themselves start or end with a separator; the
+    path may start with a dot.  Expectation by construction: everything outside the term's span byte for byte."""
+    out = []
+    k = 0
+    for nseg in (2, 3, 4):
+        for pos in range(nseg):
+            for lead_dot in ("", "."):
+                for st in ("snake", "kebab", "screaming_snake", "train", "camel", "pascal"):
+                    for npre, nsuf in ((0, 0), (1, 0), (0, 1), (1, 1)):
+                        for d0, d1 in itertools.product(("", "-", "_"), repeat=2):
+                            inner = Case(st, "", PRE_WORDS[npre], SUF_WORDS[nsuf], "none", "", TERMS[2], REPLS[2])
+                            segs = []
+                            for i in range(nseg):
+                                if i != pos:
+                                    segs.append(DOT_NEIGHBOURS[k % len(DOT_NEIGHBOURS)])
+                                    k += 1
+                            left = lead_dot + "".join(x + "." for x in segs[:pos]) + d0
+                            right = d1 + "".join("." + x for x in segs[pos:])
+                            if not left and not right:
+                                continue
+                            out.append(wrap_dotted(inner, d0, d1, left, right))
     return out
 
 
@@ -502,7 +556,7 @@ class Judge:
                           expected=("untouched" if c.near else {"untouched": c.ident, "or": c.expected}), observed=obs,
                           model_prediction=model,
                           note=("near-miss identifier (term letters without its word sequence) was edited" if c.near else
-                                (f"a repaired behaviour returned ({', '.join(regressed)}; fixed by 70a22d6): " if regressed else "") +
+                                (f"the output of finding class {', '.join(regressed)} which is not (or no longer) listed in KNOWN_FINDINGS.txt - a repaired behaviour returned: " if regressed else "") +
                                 "the edit changed bytes outside the term's span and matches no listed finding class"))
         self.stop = True
         return False
@@ -514,7 +568,8 @@ def run_cases(ctx, judge, cases, name, e2e_every=1, rng=None):
     reqs, meta = [], []
     for i, c in enumerate(cases):
         ctxt = CONTEXTS[i % len(CONTEXTS)]
-        reqs.append(req_compound(c)); meta.append((c, "compound", ctxt))
+        if not c.dot:       # with Dot disabled the compound matcher never sees a dotted path, only its segments
+            reqs.append(req_compound(c)); meta.append((c, "compound", ctxt))
         reqs.append(req_enhanced(c, ctxt)); meta.append((c, "enhanced", ctxt))
     res = correspond(ctx, f"compound/enhanced on {name}", reqs)
     for (r, impl, model), (c, op, ctxt) in zip(res, meta):
@@ -623,8 +678,11 @@ def load_corpus():
 def corpus_case(obj):
     """a recorded (formerly failing) identifier, rebuilt by construction"""
     k = obj["case"]["construction"]
-    return Case(k["style"], k["lead"], k["prefix_words"], k["suffix_words"], k["doubled"], k["trailing"],
-                k["term_words"], k["replacement_words"])
+    c = Case(k["style"], k["lead"], k["prefix_words"], k["suffix_words"], k["doubled"], k["trailing"],
+             k["term_words"], k["replacement_words"])
+    if k.get("dotted"):
+        c = wrap_dotted(c, *k["dotted"])
+    return c
 
 
 def replay_witness(ctx, name, obj, judge=None):
@@ -656,6 +714,12 @@ def run(ctx):
                         "search and replacement typed in snake/kebab/camel/pascal (an all-caps typed replacement is rendered "
                         "verbatim by the hump arm of the compound matcher: a C06 matter, not locality)",
                         "the identifier regex is modelled for ASCII content"]
+    try:
+        from translate import extractor_shape
+        extractor_shape.run()
+        ctx.cov["extractor_shape"] = extractor_shape.extract()
+    except Exception as ex:  # a translator that cannot parse its source is a broken tie
+        ctx.broke("translator", "translate/extractor_shape.py", repr(ex))
     ctx.prove("RModel.Props.C07")
     ok, msg = common.cargo_build()
     if not ok:
@@ -666,12 +730,15 @@ def run(ctx):
     for name, obj in load_corpus():
         replay_witness(ctx, name, obj, judge)
     fam = family(ctx.thorough)
-    bad = check_generators(fam + near_cases())
+    dotted = dotted_cases()
+    bad = check_generators(fam + near_cases() + dotted)
     if bad:
         ctx.broke("machinery", "generator labels vs reference word splitter", {"case": bad[0].describe(), "why": bad[1]})
         return
     run_cases(ctx, judge, fam, "family", e2e_every=1 if ctx.thorough else 4)
     ctx.sample({"family": fam[len(fam) // 2].describe()})
+    run_cases(ctx, judge, dotted, "dotted", e2e_every=1 if ctx.thorough else 2)
+    ctx.sample({"dotted": dotted[len(dotted) // 3].describe()})
     near = near_cases()
     run_cases(ctx, judge, near, "near-miss", e2e_every=1)
     ctx.sample({"near_miss": near[3].describe()})
@@ -717,6 +784,8 @@ def replay(ctx, path):
         c.search, c.replace, c.styles, c.variant = case["search"], case["replace"], case["styles"], case["variant"]
         if "outside_the_term" in case:
             c.outer = tuple(case["outside_the_term"])
+        if case.get("dotted"):
+            c.dot = tuple(case["dotted"])
         ctxt = None
         f = req.split()
         content = unhex(f[1]).decode("utf-8", "replace")
